@@ -718,13 +718,15 @@ PRINT_KW = [
 
 def gen_session(rng: random.Random, cfg: dict | None = None) -> dict:
     cfg = cfg or {}
-    n_docs = rng.choice([1, 1, 1, 2])
+    n_docs = rng.choice([1, 1, 2, 2])
     docs = []
     custom_used = []
+    t_names = decgen.tables()
+    name_pool = [rng.choice(t_names["conj_names"] if rng.random() < 0.6 else t_names["names"]) for _ in range(8)]
     for _ in range(n_docs):
         custom = rng.sample(CUSTOM_MODELS, rng.randint(1, 2)) if rng.random() < 0.35 else []
         custom_used.append(custom)
-        docs.append(decgen.generate(rng, {"max_tables": cfg.get("max_tables", 6), "custom_models": custom}))
+        docs.append(decgen.generate(rng, {"max_tables": cfg.get("max_tables", 6), "custom_models": custom, "name_pool": name_pool}))
     if cfg.get("extra_docs"):
         for d in cfg["extra_docs"]:
             docs.append(d)
